@@ -238,6 +238,14 @@ def missingOf (fs : FS) (expected : List Name) : List Name :=
 def existingOf (fs : FS) (expected : List Name) : List Name :=
   dedup ((visible fs).filter (fun n => expected.contains n))
 
+/-- `_synchronize` losing a race in its first loop: the `k`-th entry of `extra` was removed by another
+    process (appcfgmgr drops the cache entry of an instance it failed to configure) between the
+    directory listing and the `os.unlink`.  `FileNotFoundError` ends the synchronisation - nothing is
+    fetched, the service exits and its successor synchronises from scratch.  What is gone: the entries
+    unlinked so far and the one the other process took. -/
+def syncRaced (fs : FS) (extra : List Name) (k : Nat) : FS × Outcome :=
+  (unlinkAll fs (extra.take (k + 1)), .fault)
+
 /-- `_synchronize` with a canonical iteration order. -/
 def synchronize (zk : Zk) (now : Int) (sfx : Name → Name) (wm : Name → WriteMode) (check : Bool)
     (expected : List Name) (fs : FS) : FS × Outcome :=
@@ -271,6 +279,8 @@ inductive Op
   | notify (ready : Bool) (now : Int)
   | sync (now : Int) (sfx : Name → Name) (wm : Name → WriteMode) (check : Bool)
       (extra missing existing : List Name)
+  /-- a synchronisation whose `k`-th unlink of the extra loop finds the entry already gone -/
+  | syncRaced (extra : List Name) (k : Nat)
 
 def setOpt {β} (k : Name) (v : Option β) (l : List (Name × β)) : List (Name × β) :=
   match v with
@@ -285,6 +295,7 @@ def step (s : St) : Op → St
   | .notify r now => { s with fs := cacheNotify r now s.fs }
   | .sync now sfx wm check extra missing existing =>
     { s with fs := (syncOrd s.zk now sfx wm check extra missing existing s.fs).1 }
+  | .syncRaced extra k => { s with fs := (syncRaced s.fs extra k).1 }
 
 def runOps (s : St) (ops : List Op) : St := ops.foldl step s
 
